@@ -1,16 +1,128 @@
 package main
 
 import (
+	"context"
+	"encoding/json"
 	"fmt"
+	"os"
+	"os/exec"
+	"path/filepath"
+	"sort"
+	"strings"
 )
 
 // tryReplay attempts to turn the solver's model into a Go test against the
-// real code. Returns true when the failure was reproduced.
+// real code. Not built for obligations (see DESIGN.md §11.6): the heap encoding's
+// models are not inputs one can hand to a Go function. Bounded checks
+// (bounded.go) do carry a failing input; they do not go through here.
 func (eng *Engine) tryReplay(prop, group string, obls []*Obligation, path string) bool {
 	return false
 }
 
+// cmdReplay: `kpv replay <file>`.
+//
+// For the replay file of a failed obligation it prints what failed (function,
+// clause, the branch conditions of each failing path, the solvers' answers at the
+// time) and sends the stored verification condition to the solvers again; exit 1
+// if it still has no proof, 0 if it is discharged now.
+//
+// For the replay file of a failed bounded check it reruns the stored command
+// against the real code (the failing input is part of the enumeration); exit 1
+// if the failure reproduces.
 func cmdReplay(args []string) int {
-	fmt.Println("replay: not implemented yet")
+	if len(args) != 1 {
+		fmt.Fprintln(os.Stderr, "usage: kpv replay <replay file>")
+		return 2
+	}
+	data, err := os.ReadFile(args[0])
+	if err != nil {
+		fmt.Fprintln(os.Stderr, "replay:", err)
+		return 2
+	}
+	var generic map[string]any
+	if err := json.Unmarshal(data, &generic); err != nil {
+		fmt.Fprintln(os.Stderr, "replay: not a replay file:", err)
+		return 2
+	}
+	if rerun, ok := generic["rerun"].(string); ok && rerun != "" {
+		fmt.Printf("property:   %v\nobligation: %v\n", generic["property"], generic["obligation"])
+		in, _ := json.Marshal(generic["failing_input"])
+		fmt.Printf("failing input: %s\nrerunning against the real code:\n  %s\n", in, rerun)
+		if repo, ok := generic["repo"].(string); ok {
+			if _, err := os.Stat(repo); err != nil {
+				fmt.Println("replay: the tree this was run against (" + repo + ") no longer exists; apply the change again and rerun the check")
+				return 2
+			}
+		}
+		cmd := exec.Command("bash", "-c", rerun)
+		out, err := cmd.CombinedOutput()
+		fmt.Print(string(out))
+		if err != nil {
+			fmt.Println("replay: the failure reproduces on this tree")
+			return 1
+		}
+		fmt.Println("replay: the bounded check passes on this tree")
+		return 0
+	}
+	var rf replayFile
+	if err := json.Unmarshal(data, &rf); err != nil {
+		fmt.Fprintln(os.Stderr, "replay:", err)
+		return 2
+	}
+	fmt.Printf("property:   %s\nobligation: %s\nfunction:   %s  [%s]\nkind:       %s\nclause:     %s\n", rf.Property, rf.Obligation, rf.Function, rf.Position, rf.Kind, rf.Clause)
+	if rf.Note != "" {
+		fmt.Println("note:       " + rf.Note)
+	}
+	if len(rf.Paths) == 0 {
+		fmt.Println("replay: no verification condition is stored for this violation (the contract no longer fits the code, or its function is gone)")
+		return 1
+	}
+	td, _ := os.MkdirTemp("", "kpv-replay-")
+	defer os.RemoveAll(td)
+	still := 0
+	for i, p := range rf.Paths {
+		fmt.Printf("\npath %d: %s\n", i+1, p.Name)
+		for _, c := range p.Path {
+			if strings.TrimSpace(strings.TrimPrefix(c, "-:")) != "" {
+				fmt.Println("  branch: " + c)
+			}
+		}
+		var ks []string
+		for k := range p.Answers {
+			ks = append(ks, k)
+		}
+		sort.Strings(ks)
+		var as []string
+		for _, k := range ks {
+			as = append(as, k+"="+p.Answers[k])
+		}
+		fmt.Println("  solver answers when the check ran: " + strings.Join(as, " "))
+		if p.Model != "" {
+			fmt.Println("  model of the negated obligation (heap arrays are per field; object ids are integers):")
+			for _, l := range strings.Split(trunc(p.Model, 3000), "\n") {
+				fmt.Println("    " + l)
+			}
+		}
+		f := filepath.Join(td, fmt.Sprintf("p%d.smt2", i))
+		os.WriteFile(f, []byte(p.SMT), 0o644)
+		proved := false
+		var now []string
+		for _, sp := range solvers {
+			st, _ := runSolver(context.Background(), sp, f, 10000)
+			now = append(now, sp.name+"="+st)
+			if st == "unsat" {
+				proved = true
+			}
+		}
+		fmt.Println("  solver answers now (stored verification condition, 10 s each): " + strings.Join(now, " "))
+		if !proved {
+			still++
+		}
+	}
+	if still > 0 {
+		fmt.Printf("\nreplay: %d of %d stored verification conditions still have no proof (unsat = proved; sat/unknown/timeout = not proved)\n", still, len(rf.Paths))
+		return 1
+	}
+	fmt.Println("\nreplay: every stored verification condition is discharged now")
 	return 0
 }
